@@ -109,8 +109,15 @@ def assigned_ids(node):
             if isinstance(a, dict) and a.get("k") == "ref" and "id" in a:
                 addr.add(a["id"])
         elif k == "asm":
-            for o in n.get("outs", []):
+            try:
+                from . import asm as _asm
+                modified = _asm.modified_output_operands(n)
+            except Exception:
+                modified = None
+            for oi, o in enumerate(n.get("outs", [])):
                 e = o.get("e")
+                if modified is not None and oi not in modified:
+                    continue          # an output operand the template never writes keeps its value
                 if isinstance(e, dict) and e.get("k") == "ref" and "id" in e:
                     assigned[e["id"]] = assigned.get(e["id"], 0) + 1
     return assigned, addr
